@@ -27,7 +27,7 @@ def templates(rng, k):
   w = rng.choice([1, 4, 8, 8, 16, 33])
   c1, c2 = rng.randrange(1 << min(w, 8)), rng.randrange(1 << min(w, 8))
   op1, op2 = rng.choice(['+', '^', '|']), rng.choice(['+', '^', '&', '-'])
-  t = k % 10
+  t = k % 12
   I = [('i', ('bits', w)), ('m', ('bits', w))]
   decl = [f's.i = InPort( {w} )', f's.m = InPort( {w} )']
   n = f'K{k}'
@@ -71,6 +71,19 @@ def templates(rng, k):
     L = decl + [f's.a = Wire( {w} )', f's.b = Wire( {w} )', f's.d = OutPort( {w} )']
     cyc = L + ['@update_once', 'def P():', f'  s.a @= s.i {op1} {c1}', '  s.d @= s.b', '@update', 'def Q():', '  s.b @= s.a']
     return 'once-in-cycle', mk(n, cyc), None, I, 'sched-error'
+  if t == 10:  # a convergent loop one of whose edges exists ONLY as an explicit U(b) < U(c) constraint (no signal on it)
+    L = decl + [f's.x = Wire( {w} )', f's.y = Wire( {w} )', f's.z = Wire( {w} )', f's.o = OutPort( {w} )']
+    cyc = L + ['@update', 'def A():', '  s.x @= ( s.y | s.i ) & s.z', '@update', 'def B():', '  s.y @= s.x & s.m',
+               '@update', 'def C():', f'  s.z @= s.m {op1} {c1}', '@update', 'def Z():', '  s.o @= s.x ^ s.z']
+    # B -> C by constraint only, C -> A by the signal z: {A, B, C} is one cyclic group
+    order = rng.sample(['s.add_constraints( U(B) < U(C) )'], 1)
+    return 'loop-with-constraint-only-edge', mk(n, cyc + order), None, I, 'fixed'
+  if t == 11:  # false loop through a nested struct: one block writes the MID-LEVEL field as a whole, the other reads a leaf of it
+    I = [('i', ('bits', 8)), ('m', ('bits', 8))]
+    L = ['s.i = InPort( 8 )', 's.m = InPort( 8 )', 's.p = Wire( Outer )', 's.o = OutPort( 4 )']
+    cyc = L + ['@update', 'def P():', f'  s.p.p @= Pt( s.i {op1} s.m, s.i[0:4] )', '  s.o @= s.p.c', '@update', 'def Q():', f'  s.p.c @= s.p.p.a[0:4] {op2} {c1 % 16}']
+    acy = L + ['@update', 'def P1():', f'  s.p.p @= Pt( s.i {op1} s.m, s.i[0:4] )', '@update', 'def P2():', '  s.o @= s.p.c', '@update', 'def Q():', f'  s.p.c @= s.p.p.a[0:4] {op2} {c1 % 16}']
+    return 'false-loop-mid-level-struct', mk(n, cyc), mk(n + 'a', acy), I, 'fixed'
   if t == 9:   # a convergent loop that runs through K >= 3 different host components (one update block each)
     K = rng.randrange(3, 7); h = max(1, w // 2)
     mono = rng.random() < 0.5
@@ -242,7 +255,7 @@ def run(ctx):
   from pymtl3.dsl.errors import UpblkCyclicError
   quick = ctx.tier == 'quick'
   rng = ctx.rng
-  ntempl = 60 if quick else 600
+  ntempl = 72 if quick else 720
   n = ntempl + (150 if quick else 2500)
   cycles = 6 if quick else 16
   coq_cases, coq_meta = [], []
